@@ -37,6 +37,8 @@ def configs(tier):
         out.append(dict(step="compound", P=P, A=2))
     for cls in ("calling-gibbs", "calling-mh"):  # CallingMCMC.fit -> greedy_caller / mcmc_sampler
         out.append(dict(group="class-wiring", cls=cls, step="wiring", P=1, A=1))
+    for lp in ("calling-loop", "calling-loop-nocache"):  # mcmc_sampler -> compound_step, trace bookkeeping
+        out.append(dict(group="loop-wiring", loop=lp, step="wiring", P=1, A=1))
     return out
 
 
@@ -73,11 +75,11 @@ def _harness():
 
 
 def run_config(c, col):
-    if c.get("group") == "class-wiring":
+    if c.get("group") in ("class-wiring", "loop-wiring"):
         from checks import wiring
 
         E.use_summaries(True)
-        return wiring.run_class(c, col)
+        return (wiring.run_class if c["group"] == "class-wiring" else wiring.run_loop)(c, col)
     cm = _harness()
     if c["step"] == "compound":
         return _run_compound(c, col, cm)
@@ -265,10 +267,10 @@ def _real_kernel(step, g, k, A, F, farr, Lmap):
 def replay(v):
     import math
 
-    if v["config"].get("group") == "class-wiring":
+    if v["config"].get("group") in ("class-wiring", "loop-wiring"):
         from checks import wiring
 
-        return wiring.replay_real(v, wiring.run_class)
+        return wiring.replay_real(v, wiring.run_class if v["config"]["group"] == "class-wiring" else wiring.run_loop)
     c = v["config"]
     m = v.get("model") or {}
     if c["step"] == "compound":
